@@ -39,6 +39,8 @@ pub fn append_bytes(ctx: &mut Ctx) {
                 one altered byte / junk after AEND / a chunk whose length field points beyond the end; `read_header` + `seek_to_end` + `add_entry` (one stored entry) + `finalize` on a Cursor, \
                 result compared with the Lean model (whole buffer) and with the byte-prefix and read-back oracles; non-trivial = the call succeeded".into();
     let n = if ctx.thorough { 60 } else { 10 };
+    // a call that does not return is the finding; it is waited for (5 s each) at most three times per run
+    let mut hangs = 0usize;
     for case in 0..n {
         let (full, desc, _) = gen_archive(&mut rng, 3, 60);
         let name = format!("appended-{case}.txt");
@@ -60,7 +62,8 @@ pub fn append_bytes(ctx: &mut Ctx) {
             let (i2, n2, c2) = (input.clone(), name.clone(), content.clone());
             ctx.count(if what.starts_with("cut") { "input:truncated" } else if what.starts_with("bit") { "input:altered" } else { "input:other" });
             ctx.oracle_eval();
-            let r = crate::util::isolated(20_000, 2048, move || match catch(move || append_in_process(i2, n2, c2)) {
+            if hangs >= 3 { continue; }
+            let r = crate::util::isolated(5_000, 2048, move || match catch(move || append_in_process(i2, n2, c2)) {
                 Ok(Ok(out)) => format!("ok {}", hex(&out)),
                 Ok(Err(e)) => format!("err {}", err_kind(&e)),
                 Err(p) => format!("panic {p}"),
@@ -68,6 +71,7 @@ pub fn append_bytes(ctx: &mut Ctx) {
             let imp = match r {
                 Ok(s) => s,
                 Err(why) => {
+                    hangs += 1;
                     ctx.violation("C07", "seek_to_end / append does not return (hang, abort or runaway allocation)", json!({"archive":desc,"input":what,"outcome":why,"bytes":hex(&input[..input.len().min(4000)])}));
                     ctx.violation("C06", "appending to a damaged archive hangs or aborts", json!({"input":what,"outcome":why}));
                     continue;
